@@ -50,27 +50,56 @@ def jRegion (j : Json) : Except String RegionIn := do
 def keyLe (a b : ChainKey) : Bool :=
   if a.1 = b.1 then pathLexLe a.2 b.2 else decide (a.1.toString ≤ b.1.toString)
 
+def jChainEntry (j : Json) : Except String (ChainKey × String) := do
+  let a ← jArr j
+  pure (← jChainKey a[0]!, ← jStr a[1]!)
+
+def ofChainEntry (p : ChainKey × String) : Json := Json.arr #[ofChainKey p.1, ofStr p.2]
+
+def entryLe (a b : ChainKey × String) : Bool := keyLe a.1 b.1
+
+def jRepair (j : Json) : Except String Repair := do
+  match ← jStr j with
+  | "orig" => pure .none
+  | "b2b4dd9" => pure .dropOnly
+  | "keep" => pure .keepReads
+  | v => throw s!"unknown variant {v}"
+
+def ofRegion (s : Store) : Json :=
+  Json.mkObj [("store", ofStore s),
+              ("r2t", ofList (fun p : String × String => Json.arr #[ofStr p.1, ofStr p.2]) s.dumpR2T)]
+
 def ops : List (String × Handler) := [
   ("chr_run", fun j => do
       let forb ← jList jNat (← arg j "forbidden")
       let st ← arg j "state"
       let cs : ChrState := { detected := ← jList jStr (← arg st "detected"), idv := ← jNat (← arg st "idv"),
-                             reported := ← jList jChainKey (← arg st "reported") }
+                             reported := ← jList jChainEntry (← arg st "reported") }
       let regs ← jList jRegion (← arg j "regions")
-      let repaired ← jBool (← arg j "repaired")
+      let repaired ← jRepair (← arg j "variant")
       match runChromosome repaired (nextId forb (forb.length + 1)) regs cs [] with
       | none => pure (jErr "error")
       | some (cs', reps) =>
         pure (Json.mkObj [("detected", ofList ofStr cs'.detected), ("idv", ofNat cs'.idv),
-                          ("reported", ofList ofChainKey (cs'.reported.mergeSort keyLe)),
-                          ("regions", ofList (fun s : Store => Json.mkObj [("store", ofStore s),
-                              ("r2t", ofList (fun p : String × String => Json.arr #[ofStr p.1, ofStr p.2]) s.dumpR2T)]) reps)])),
+                          ("reported", ofList ofChainEntry (cs'.reported.mergeSort entryLe)),
+                          ("regions", ofList ofRegion reps)])),
+  -- the step of fix b2b4dd9 (kept as a variant): a repeated chain is deleted
   ("drop_reported", fun j => do
       let s ← jStore (← arg j "store")
       let rep ← jList jChainKey (← arg j "reported")
       match s.dropReported rep with
       | none => pure (jErr "error")
-      | some (s', rep') => pure (Json.mkObj [("store", ofStore s'), ("reported", ofList ofChainKey (rep'.mergeSort keyLe))]))
+      | some (s', rep') => pure (Json.mkObj [("store", ofStore s'), ("reported", ofList ofChainKey (rep'.mergeSort keyLe))])),
+  -- the current `drop_novel_chains_reported_elsewhere`: storage after the call (local copies under the first id), the ids of
+  -- `repeated_chain_models`, the models that will be dumped, the new dict
+  ("drop_keep", fun j => do
+      let s ← jStore (← arg j "store")
+      let rep ← jList jChainEntry (← arg j "reported")
+      match s.dropKeep rep with
+      | none => pure (jErr "error")
+      | some (s', final, rep') =>
+        pure (Json.mkObj [("store", ofStore s'), ("final", ofList ofStr (final.map (·.tid))),
+                          ("reported", ofList ofChainEntry (rep'.mergeSort entryLe))]))
 ]
 
 end IsoVerif.Driver.C04Split
